@@ -96,7 +96,7 @@ func main() {
 		if m, ok := models[tags]; ok {
 			return m, effects[m], nil
 		}
-		p, err := core.Load(core.LoadConfig{Tags: tags})
+		p, err := core.LoadCanonical(core.LoadConfig{Tags: tags})
 		if err != nil {
 			return nil, nil, err
 		}
